@@ -180,6 +180,7 @@ int main( int argc, char** argv )
 {
     if ( argc < 2 ) { std::fprintf( stderr, "usage: %s casefile\n", argv[0] ); return 2; }
     std::ifstream in( argv[1] );
+    std::setvbuf( stdout, nullptr, _IOLBF, 0 );     // completed cases survive a crash of a later one
     std::thread( watchdog ).detach();
     vcase::Case c;
     while ( vcase::read_case( in, c )) {
